@@ -226,3 +226,13 @@ func VerdictOf(r *sx.PathResult) Verdict {
 	}
 	return VInconclusive
 }
+
+// secondLookUnsat re-decides a verdict query the primary solver answered "unknown" within its
+// per-query timeout: first z3 5.1.0 one-shot on the recorded script (120 s), then the primary
+// again with twelve times the timeout (a loaded machine makes the short timeout bite).
+func secondLookUnsat(m *sx.Machine) bool {
+	if m.S.CheckSecondOpinion(120, "z3-new", "-smt2") == smt.Unsat {
+		return true
+	}
+	return m.S.CheckLong(12) == smt.Unsat
+}
